@@ -1083,6 +1083,7 @@ func init() {
 			{Name: "compose", N: n(96, 480), Run: runCompose, Race: true, NRace: n(24, 96)},
 			{Name: "e2e", N: n(24, 120), Run: runE2E},
 			{Name: "e2e-files", N: n(16, 80), Run: runE2EFiles},
+			{Name: "e2e-dir", N: n(12, 30), Run: runE2EDir},
 		},
 		Cmds:          []string{"obiconvert", "obigrep", "obiannotate"},
 		MinNontrivial: 500,
